@@ -34,6 +34,10 @@ type Scenario struct {
 	GateLog   bool `json:"gate_log,omitempty"`
 	GateOut   bool `json:"gate_out,omitempty"`
 
+	CloseErr bool `json:"close_err,omitempty"` // Close returns an error
+	StatSize int  `json:"stat_size,omitempty"` // size reported by Stat (stale metadata); 0 = true size
+	RawLog   bool `json:"raw_log,omitempty"`   // unsynchronised log writer read by the caller right after the return
+
 	Reads   []simio.ReadStep `json:"reads,omitempty"`
 	Fill    int              `json:"fill,omitempty"`
 	Bias    string           `json:"bias,omitempty"`
